@@ -655,6 +655,13 @@ impl CanonicalizeContext {
 			if children.is_empty() {
 				return Ok( () );
 			} else {
+				// get_presentation_element() asserts that a MathML-Presentation annotation has exactly one child
+				for child in &children {
+					let child = as_element(*child);
+					if child.attribute_value("encoding") == Some("MathML-Presentation") && child.children().len() != 1 {
+						bail!("'{}' with encoding 'MathML-Presentation' should have one child:\n{}", name(&child), mml_to_string(&mathml));
+					}
+				}
 				let (i_presentation, presentation_element) = get_presentation_element(mathml);
 				// make sure only 'annotation' and 'annotation-xml' elements are children of the non-presentation element
 				for (i, child) in children.iter().enumerate() {
